@@ -70,6 +70,7 @@ pub fn run(ctx: &Ctx) -> Outcome {
         batch.dedup();
         let data = pattern(seed, 0xC04D, (2 * par + 1) * bs);
         let ivset = ivs(seed, bs, d.w, d.be);
+        let extra_calls = std::cell::Cell::new(0u64);
         let ivset: Vec<_> = if tier == Tier::Quick { ivset.into_iter().enumerate().filter(|(i, _)| *i < 4 || i % 3 == 0).map(|(_, v)| v).collect() } else { ivset };
         for (ivn, iv) in &ivset {
             for &s in &idxs {
@@ -105,9 +106,15 @@ pub fn run(ctx: &Ctx) -> Outcome {
                             }
                             let log = toy::log_take();
                             if cfg.is_toy() {
-                                ensure!(log.len() == m && log.iter().all(|l| l.dir == b'E'), format!("counter_block_count/{}", d.mode), "{} iv-field={} index {} batch {}: the cipher was called {} times", d.ty, ivn, s, m, log.len());
-                                for (j, l) in log.iter().enumerate() {
-                                    ensure!(l.input == want_ctr[j], format!("counter_block_wrong/{}", d.mode), "{} iv={} (field {}): the block fed to E for keystream block {} is {} want {} (reached by positioning at {} and generating {} blocks in one call)", d.ty, short(iv), ivn, s + j as u128, short(&l.input), short(&want_ctr[j]), s, m);
+                                // the expected counter blocks must occur in order among the blocks the cipher received
+                                // (extra cipher calls are not a violation of the layout and are only counted)
+                                let got: Vec<Vec<u8>> = log.iter().filter(|l| l.dir == b'E').map(|l| l.input.clone()).collect();
+                                match match_subsequence(&got, &want_ctr) {
+                                    Ok(extra) => extra_calls.set(extra_calls.get() + extra as u64),
+                                    Err(j) => {
+                                        let shown = got.get(j).map(|b| short(b)).unwrap_or_else(|| "nothing".into());
+                                        return fail(format!("counter_block_wrong/{}", d.mode), format!("{} iv={} (field {}): the block fed to E for keystream block {} is {} want {} (reached by positioning at {} and generating {} blocks in one call)", d.ty, short(iv), ivn, s + j as u128, shown, short(&want_ctr[j]), s, m));
+                                    }
                                 }
                             }
                             ensure!(out == want_out, format!("keystream_wrong/{}", d.mode), "{} iv={} (field {}) blocks {}..+{}: output {} want {} (first diff at byte {:?})", d.ty, short(iv), ivn, s, m, short(&out), short(&want_out), first_diff(&out, &want_out));
@@ -133,6 +140,7 @@ pub fn run(ctx: &Ctx) -> Outcome {
             }
         }
         rep.count("indices_per_unit", idxs.len() as u64);
+        rep.count("extra_cipher_calls_tolerated", extra_calls.get());
         rep.sample(case_json(vec![("type", d.ty.as_str().into()), ("iv", hx(&ivset[1].1)), ("index", J::Str(idxs[idxs.len() / 2].to_string())), ("expected_counter_block", hx(&rf::ctr_block(&ivset[1].1, d.w, d.be, idxs[idxs.len() / 2]))), ("indices", idxs.len().into()), ("ivs", ivset.len().into())]));
         rep.finish()
     });
